@@ -409,6 +409,15 @@ func cliOracleC10(r *Rng, n int, thorough bool, seeds []string) *OracleResult {
 			}()
 		}
 	}
+	for _, v6 := range []bool{false, true} {
+		line := fmt.Sprintf("identical-answers v6=%v calls=4", v6)
+		cliNoteLine(line)
+		res.Evaluations++
+		res.Tags["identical-answers"]++
+		if w := cliIdenticalAnswersProbe(v6, 4); w != "" {
+			res.fail(Failure{Oracle: "c10", Input: line, What: w, Class: "acceptable-datagram-missed"})
+		}
+	}
 	for i := 0; i < n; i++ {
 		sc, tags := cliGenMulti(r.Fork(), i%2 == 1)
 		run(sc, tags)
